@@ -36,11 +36,12 @@ Outcomes(s) ==
     [] ev.e = "destroy"       -> {LDestroy(s)}
     [] OTHER                  -> {}
 
-Explained(o) == o.r = ev.r /\ Obs(o.s) = ev.s
+GotR == IF ev.e \in {"destroy", "clear"} THEN [ev.r EXCEPT !.d = Sorted(@)] ELSE ev.r
+Explained(o) == o.r = GotR /\ Obs(o.s) = ev.s
 
 Which == LET O == Outcomes(lists) IN
          IF O = {} THEN "unknown_call"
-         ELSE IF \E o \in O : o.r = ev.r THEN
+         ELSE IF \E o \in O : o.r = GotR THEN
               (LET x == Obs((CHOOSE o \in O : TRUE).s) IN
                IF x.f0 # ev.s.f0 \/ x.f1 # ev.s.f1 THEN "state.forward"
                ELSE IF x.b0 # ev.s.b0 \/ x.b1 # ev.s.b1 THEN "state.backward"
